@@ -675,7 +675,7 @@ func overflowUnderDrain(r *hx.Result) {
 		const producers, each = 8, 60000
 		var wg sync.WaitGroup
 		raw := []byte("raw item\n")
-		ok, pv := hx.Within(60*time.Second, func() {
+		ok, pv := hx.Within(240*time.Second, func() {
 			for w := 0; w < producers; w++ {
 				wg.Add(1)
 				go func(w int) {
@@ -695,8 +695,14 @@ func overflowUnderDrain(r *hx.Result) {
 			lg.Stop()
 		})
 		desc := map[string]any{"policy": fmt.Sprint(pol), "producers": producers, "items_each": each, "appender": "counts only"}
-		if !ok || pv != nil {
-			r.Violate("stop-failed", desc, "producers and Stop returned=%v panic=%v", ok, pv)
+		if pv != nil {
+			r.Violate("stop-failed", desc, "producers and Stop panicked: %v", pv)
+			return
+		}
+		if !ok {
+			// half a million channel operations take a second or two; four minutes mean the machine is not usable for
+			// this run (a Stop that never returns is the subject of the gated scenarios, not of this one)
+			r.SetInfra("overflowUnderDrain: 480000 submissions and Stop did not finish within 240 s")
 			return
 		}
 		r.Eval(producers * each)
